@@ -40,14 +40,37 @@ def return_expr(f: FuncInfo) -> ast.expr:
     return rets[0].value  # type: ignore[return-value]
 
 
-def expanded_return(ctx: Context, f: FuncInfo) -> ast.expr:
+def expanded_return(ctx: Context, f: FuncInfo, _depth: int = 3) -> ast.expr:
+    """The single return expression of a predicate method with locals expanded and calls to other pure
+    one-expression predicate methods of the same class (`self.is_closed()`) inlined."""
     rets = [n for n in own_nodes(f.node) if isinstance(n, ast.Return) and n.value is not None]
     if len(rets) != 1:
         raise AnalysisError(f"{f.qual}: expected a single return expression, found {len(rets)}")
     alts = ctx.prov.expand(rets[0].value, f, rets[0])
     if len(alts) != 1:
         raise AnalysisError(f"{f.qual}: return expression has {len(alts)} provenance alternatives")
-    return alts[0]
+    expr = alts[0]
+    if _depth <= 0 or f.cls is None:
+        return expr
+    cls = f.cls
+
+    class Inline(ast.NodeTransformer):
+        def visit_Call(self, n: ast.Call) -> ast.AST:
+            self.generic_visit(n)
+            if isinstance(n.func, ast.Attribute) and isinstance(n.func.value, ast.Name) and n.func.value.id == "self" and not n.args and not n.keywords:
+                m = cls.find_method(n.func.attr)
+                if m is not None and m is not f and not m.is_async and len(m.param_names()) == 1:
+                    body = [x for x in own_nodes(m.node) if isinstance(x, ast.Return) and x.value is not None]
+                    if len(body) == 1:
+                        try:
+                            return expanded_return(ctx, m, _depth - 1)
+                        except AnalysisError:
+                            return n
+            return n
+
+    from ..load import clone
+
+    return Inline().visit(clone(expr))
 
 
 def run(ctx: Context) -> None:
